@@ -11,12 +11,14 @@ import (
 	"fmt"
 	"io"
 	"math"
+	"strings"
 	"sync"
 	"testing"
 	"time"
 
 	client "github.com/liftbridge-io/liftbridge-api/v2/go"
 	"google.golang.org/grpc"
+	"google.golang.org/grpc/status"
 )
 
 type vC16Stream struct {
@@ -48,6 +50,24 @@ func (s *vC16Stream) Send(r *client.PublishResponse) error {
 	return nil
 }
 
+// vC16Kind maps an answer's text to the model's answer kinds: 0 positive, 1 too large, 2 incorrect offset,
+// 3 encryption, 4 refused by the API (NONE policy on a stream with concurrency control), 9 anything else.
+func vC16Kind(msg string) int {
+	switch {
+	case msg == "":
+		return 0
+	case strings.Contains(msg, "incorrect expected offset"):
+		return 2
+	case strings.Contains(msg, "must have AckPolicy set"):
+		return 4
+	case strings.Contains(msg, "exceeds max replication size"):
+		return 1
+	case strings.Contains(msg, "encryption failed"):
+		return 3
+	}
+	return 9
+}
+
 func TestVerifC16Api(t *testing.T) {
 	out := vOpenOut()
 	defer out.close()
@@ -58,6 +78,7 @@ func TestVerifC16Api(t *testing.T) {
 	for _, batch := range []bool{false, true} {
 		srv := vStartServer(fmt.Sprintf("o%v", batch), func(cfg *Config) {
 			cfg.CursorsStream.Partitions = 0
+			cfg.Clustering.ReplicationMaxBytes = 2000
 			if batch {
 				cfg.BatchMaxMessages = 8
 				cfg.BatchMaxTime = 20 * time.Millisecond
@@ -84,7 +105,21 @@ func TestVerifC16Api(t *testing.T) {
 				}
 			}
 			seq := 0
-			newVal := func() string { seq++; return fmt.Sprintf("u%d-%d", id, seq) }
+			answers := []vM{} // every answer received so far: correlation number, offset, kind
+			obs := func(st vM) vM {
+				time.Sleep(15 * time.Millisecond)
+				st["newest"], st["hw"] = p.log.NewestOffset(), p.log.HighWatermark()
+				st["answers"] = append([]vM{}, answers...)
+				return st
+			}
+			newVal := func() string {
+				seq++
+				if r.intn(12) == 0 {
+					return fmt.Sprintf("u%d-%d-%s", id, seq, strings.Repeat("L", 2500)) // larger than clustering.replication.max.bytes
+				}
+				return fmt.Sprintf("u%d-%d", id, seq)
+			}
+			large := func(v string) bool { return len(v) > 2000 }
 			expectedFor := func(next int64) (int64, string) {
 				switch r.pick(4, 5, 3, 3, 2) {
 				case 0:
@@ -120,11 +155,19 @@ func TestVerifC16Api(t *testing.T) {
 					pol := policies[r.pick(4, 3, 2)]
 					val := newVal()
 					ctx, cancel := context.WithTimeout(context.Background(), 3*time.Second)
-					resp, err := api.Publish(ctx, &client.PublishRequest{Stream: name, Value: []byte(val), AckPolicy: pol, ExpectedOffset: exp})
+					resp, err := api.Publish(ctx, &client.PublishRequest{Stream: name, Value: []byte(val), AckPolicy: pol, ExpectedOffset: exp, CorrelationId: fmt.Sprintf("m%d", seq)})
 					cancel()
 					stats[fmt.Sprintf("unary/%s/%s", pol, kind)]++
-					accept := pol != client.AckPolicy_NONE && (exp == -1 || exp == next)
-					st := vM{"op": "publish", "policy": pol.String(), "expected": exp, "kind": kind, "ok": err == nil}
+					accept := pol != client.AckPolicy_NONE && (exp == -1 || exp == next) && !large(val)
+					if large(val) {
+						stats["unary/too-large"]++
+					}
+					if err == nil && resp.Ack != nil {
+						answers = append(answers, vM{"corr": seq, "off": resp.Ack.Offset, "kind": 0})
+					} else if err != nil {
+						answers = append(answers, vM{"corr": seq, "off": 0, "kind": vC16Kind(status.Convert(err).Message())})
+					}
+					st := obs(vM{"op": "api", "msgs": []vM{{"corr": seq, "policy": pol.String(), "expected": exp, "large": large(val)}}, "kind": kind, "ok": err == nil})
 					if accept {
 						spec = append(spec, val)
 						if err != nil {
@@ -156,15 +199,15 @@ func TestVerifC16Api(t *testing.T) {
 						exp, kind := expectedFor(cur)
 						pol := policies[r.pick(4, 3, 2)]
 						val := newVal()
-						cid := fmt.Sprintf("c%d", g)
+						cid := fmt.Sprintf("m%d", seq)
 						reqs = append(reqs, &client.PublishRequest{Stream: name, Value: []byte(val), AckPolicy: pol, ExpectedOffset: exp, CorrelationId: cid})
-						acc := pol != client.AckPolicy_NONE && (exp == -1 || exp == cur)
+						acc := pol != client.AckPolicy_NONE && (exp == -1 || exp == cur) && !large(val)
 						wants[cid] = want{acc, cur, pol == client.AckPolicy_NONE}
 						if acc {
 							spec = append(spec, val)
 							cur++
 						}
-						descr = append(descr, vM{"policy": pol.String(), "expected": exp, "kind": kind})
+						descr = append(descr, vM{"corr": seq, "policy": pol.String(), "expected": exp, "large": large(val), "kind": kind})
 						stats[fmt.Sprintf("async/%s/%s", pol, kind)]++
 					}
 					sctx, scancel := context.WithCancel(context.Background())
@@ -202,7 +245,17 @@ func TestVerifC16Api(t *testing.T) {
 							setViol("refused-publish-reported-as-success", fmt.Sprintf("PublishAsync request %s (NONE policy: %v) must be refused; the response is %v", cid, w.none, rsp))
 						}
 					}
-					steps = append(steps, vM{"op": "async", "reqs": descr})
+					for _, d := range descr {
+						rsp := seen[fmt.Sprintf("m%d", d["corr"])]
+						switch {
+						case rsp == nil:
+						case rsp.AsyncError != nil:
+							answers = append(answers, vM{"corr": d["corr"], "off": 0, "kind": vC16Kind(rsp.AsyncError.Message)})
+						case rsp.Ack != nil:
+							answers = append(answers, vM{"corr": d["corr"], "off": rsp.Ack.Offset, "kind": 0})
+						}
+					}
+					steps = append(steps, obs(vM{"op": "api", "msgs": descr, "session": true}))
 					checkLog("after a PublishAsync session")
 				case 2: // publishers racing with the same expected offset
 					m := 2 + r.intn(5)
@@ -213,22 +266,34 @@ func TestVerifC16Api(t *testing.T) {
 					var wg sync.WaitGroup
 					var mu sync.Mutex
 					wins := []string{}
+					var racers, winners []vM
 					for g := 0; g < m; g++ {
-						val := newVal()
+						seq++
+						val := fmt.Sprintf("u%d-%d", id, seq)
+						me := seq
 						wg.Add(1)
 						go func() {
 							defer wg.Done()
 							ctx, cancel := context.WithTimeout(context.Background(), 3*time.Second)
 							defer cancel()
-							resp, err := api.Publish(ctx, &client.PublishRequest{Stream: name, Value: []byte(val), AckPolicy: client.AckPolicy_LEADER, ExpectedOffset: exp})
+							resp, err := api.Publish(ctx, &client.PublishRequest{Stream: name, Value: []byte(val), AckPolicy: client.AckPolicy_LEADER, ExpectedOffset: exp, CorrelationId: fmt.Sprintf("m%d", me)})
+							mu.Lock()
+							defer mu.Unlock()
+							d := vM{"corr": me, "policy": "LEADER", "expected": exp, "large": false}
 							if err == nil && resp.Ack != nil {
-								mu.Lock()
 								wins = append(wins, val)
-								mu.Unlock()
+								winners = append(winners, d)
+								answers = append(answers, vM{"corr": me, "off": resp.Ack.Offset, "kind": 0})
+							} else {
+								racers = append(racers, d)
+								if err != nil {
+									answers = append(answers, vM{"corr": me, "off": 0, "kind": vC16Kind(status.Convert(err).Message())})
+								}
 							}
 						}()
 					}
 					wg.Wait()
+					racers = append(winners, racers...) // the order in which the leader must have taken them: whoever won came first
 					stats["race"]++
 					wantWins := 0
 					if exp == next {
@@ -240,7 +305,7 @@ func TestVerifC16Api(t *testing.T) {
 					if len(wins) > 0 {
 						spec = append(spec, wins[0])
 					}
-					steps = append(steps, vM{"op": "race", "n": m, "expected": exp, "wins": len(wins)})
+					steps = append(steps, obs(vM{"op": "api", "msgs": racers, "race": true, "wins": len(wins)}))
 					checkLog("after a race")
 				}
 			}
